@@ -140,7 +140,9 @@ def gen_case(rng, tier, index, programs_only=False):
         elif r < 0.39 and "jne" in v:
             lines.append({"k": "jne", "t": target(True)})
         elif r < 0.45:
-            lines.append({"k": "call", "t": target(True)})
+            lines.append({"k": rng.choice(["call", "bal", "bltzal"])
+                          if "bal" in v and rng.random() < 0.4 else "call",
+                          "t": target(True)})
         elif r < 0.49 and "ret" in v:
             lines.append({"k": "ret"})
         elif r < 0.52:
